@@ -222,6 +222,12 @@ impl Prop for C20 {
         let mut v = Vec::new();
         for ty in TYPES {
             for transport in ["tcp4", "ipc"] {
+                // so many silent clients that the listener cannot even accept for a while
+                v.push(json!({"kind": "accept_errors", "ty": ty, "transport": transport, "stallers": 12}));
+            }
+        }
+        for ty in TYPES {
+            for transport in ["tcp4", "ipc"] {
                 let mut plan: Vec<(usize, &str)> = Vec::new();
                 for off in 0..n {
                     for beh in BEHAVIOURS {
@@ -259,6 +265,10 @@ impl Prop for C20 {
     }
 
     fn run(&self, case: &Value, ctx: &mut Ctx) {
+        if s(case, "kind") == "accept_errors" {
+            super::c18::accept_fail_case("C20", ctx, case);
+            return;
+        }
         let ty = s(case, "ty").to_string();
         let transport = s(case, "transport").to_string();
         let bad: Vec<(usize, String)> = case["bad"]
@@ -305,6 +315,7 @@ impl Prop for C20 {
             ("good_handshakes_completed_while_a_staller_was_open", 100),
             ("accept_failures_reported", 200),
             ("transport/ipc", 40),
+            ("accept_error_episodes", 10),
             ("max_simultaneous_bad_clients", 40),
         ]
     }
